@@ -82,7 +82,7 @@ func main() {
 		if b == 0 {
 			b = 40 * time.Second
 			switch *prop {
-			case "C03", "C12":
+			case "C03", "C12", "C14", "C16":
 				// these two checks consist of several scenario families each; the quick tier gives them a minute
 				b = 60 * time.Second
 			}
